@@ -22,6 +22,7 @@ VARIABLES tid,       \* index of the record this behaviour replays
 \* ---- out of model: records the specification does not decide ---------------
 EventOK(ev) == CASE ev.k = "val" -> Renderable(ev.v)
                  [] ev.k = "halt" -> Renderable(ev.v) /\ ev.c > -1000000 /\ ev.c < 1000000
+                 [] ev.k \in {"dbg", "stderr"} -> Renderable(ev.v)
                  [] ev.k = "err" -> ("c" \in DOMAIN ev => (ev.c > -1000000 /\ ev.c < 1000000))
                  [] OTHER -> FALSE
 RunOK(run) == \A i \in 1..Len(run) : EventOK(run[i])
